@@ -11,15 +11,9 @@ import (
 	"github.com/plgd-dev/go-coap/v3/message/pool"
 	coapNet "github.com/plgd-dev/go-coap/v3/net"
 	"github.com/plgd-dev/go-coap/v3/net/responsewriter"
-	"github.com/plgd-dev/go-coap/v3/tcp/coder"
 )
 
 // in-memory stream socket: records the frames the connection writes; the peer injects bytes through processBuffer
-
-type zzAddr struct{}
-
-func (zzAddr) Network() string { return "tcp" }
-func (zzAddr) String() string  { return "mem" }
 
 type zzNetConn struct {
 	frames [][]byte
@@ -53,52 +47,6 @@ func zzNewTCPConn(nc *zzNetConn, handler HandlerFunc, poolSize uint32) *Conn {
 	cfg.ConnectionCacheSize = 64
 	cfg.DisableTCPSignalMessageCSM = true
 	return NewConnWithOpts(coapNet.NewConn(nc), &cfg)
-}
-
-func zzMkFrame(code codes.Code, token message.Token, payload []byte) []byte {
-	m := pool.NewMessage(context.Background())
-	m.SetCode(code)
-	m.SetToken(token)
-	if len(payload) > 0 {
-		m.SetContentFormat(message.AppOctets)
-		m.SetBody(bytes.NewReader(payload))
-	}
-	b, err := m.MarshalWithEncoder(coder.DefaultCoder)
-	if err != nil {
-		return nil
-	}
-	return append([]byte(nil), b...)
-}
-
-func zzDecodeFrame(b []byte) (codes.Code, []byte) {
-	var m message.Message
-	m.Options = make(message.Options, 0, 8)
-	if _, err := coder.DefaultCoder.Decode(b, &m); err != nil {
-		return 0, nil
-	}
-	return m.Code, m.Token
-}
-
-type zzTCall struct {
-	token message.Token
-	resp  *pool.Message
-	err   error
-	done  bool
-	tok   []byte
-	body  []byte
-}
-
-func zzTDo(cc *Conn, c *zzTCall) {
-	req := pool.NewMessage(context.Background())
-	req.SetCode(codes.GET)
-	req.SetToken(c.token)
-	_ = req.SetPath("/a")
-	c.resp, c.err = cc.Do(req)
-	if c.err == nil && c.resp != nil {
-		c.tok = c.resp.Token()
-		c.body, _ = c.resp.ReadBody()
-	}
-	c.done = true
 }
 
 // C03 on the stream connection: two callers, responses arrive in one read or in two, in either order, possibly
